@@ -118,7 +118,8 @@ func canon(r eng.Result) string {
 // queryVia runs q in session s with a registered process-list entry, as server/handler.go does.
 func queryVia(s *eng.S, q string) (res eng.Result, beginErr error) {
 	pl := engine.Engine.ProcessList
-	ctx := sql.NewContext(context.Background(), sql.WithSession(s.Ctx.Session), sql.WithPid(nextPid.Add(1)), sql.WithProcessList(pl))
+	ctx := sql.NewContext(context.Background(), sql.WithSession(s.Ctx.Session), sql.WithPid(nextPid.Add(1)), sql.WithProcessList(pl),
+		sql.WithMemoryManager(engine.Engine.MemoryManager)) // the server shares one memory manager among all sessions
 	ctx.SetCurrentDatabase("db")
 	ctx, beginErr = pl.BeginQuery(ctx, q)
 	if beginErr != nil {
@@ -455,7 +456,8 @@ func run(c *lib.Ctx, cs caseT) {
 	for i, qs := range cs.Sessions {
 		counts[i] = fmt.Sprint(len(qs))
 	}
-	term := fmt.Sprintf("Case %s %d%%Z %d%%Z %d %d%%Z", lib.CoqList(counts), tcv, trv, len(procs), qv)
+	ncaches := engine.Engine.MemoryManager.NumCaches()
+	term := fmt.Sprintf("Case %s %d%%Z %d%%Z %d %d%%Z %d", lib.CoqList(counts), tcv, trv, len(procs), qv, ncaches)
 	id := c.Case(term, cs, fmt.Sprint(cs.Sessions))
 	c.PredChecked()
 	for _, e := range beginErrs {
@@ -476,6 +478,9 @@ func run(c *lib.Ctx, cs caseT) {
 	}
 	if selv != uint64(totalSel) {
 		c.PredFail(id, "com_select-counter-wrong-at-quiescence", fmt.Sprintf("global Com_select moved by %d for %d SELECTs", selv, totalSel), cs)
+	}
+	if ncaches != 0 {
+		c.PredFail(id, "cache-registry-not-empty-at-quiescence", fmt.Sprintf("MemoryManager.NumCaches() = %d after all queries finished", ncaches), cs)
 	}
 	if qv != uint64(total) {
 		c.PredFail(id, "questions-counter-lost-updates", fmt.Sprintf("Questions moved by %d for %d queries", qv, total), cs)
